@@ -259,6 +259,13 @@ void harness(void)
             memset(&ng, 0, sizeof(ng));
             ng.id = nid; ng.serial = extra_serial; ng.has_timer = g.has_timer;
             VP_ASSERT(nr != NULL && nr->serial == extra_serial, "C10: an announced client is in the table under a fresh serial");
+#if defined(CHECK_ALL) || defined(CHECK_C09)
+            /* C09b: every later client-directed line echoes these three fields */
+            if (nr) {
+                VP_ASSERT(strcmp(nr->text_addr, "10.1.2.3") == 0, "C09: the address text kept for the client denotes the address the server announced");
+                VP_ASSERT(nr->remote_port == 4567 && nr->client == nid, "C09: the port and id kept for the client are the announced ones");
+            }
+#endif
             if (nr) {
                 struct iauth_xquery_client *nc = set_find(&nr->data, &key);
                 VP_ASSERT(nc != NULL && inv(nr, nc, &ng), "base case: a freshly announced client satisfies the invariant");
